@@ -91,6 +91,15 @@ def _data(n, seed=0):
     return bytes(((i * 131 + 7 + seed) & 0xFF) for i in range(n))
 
 
+class ShortReader(io.BytesIO):
+    """A raw stream as the io module defines it: read(n) may return fewer than n bytes (here always n - 1, at least 1) before the
+    end of the stream, b'' only at the end."""
+    def read(self, n=-1):
+        if n is None or n < 0:
+            return io.BytesIO.read(self)
+        return io.BytesIO.read(self, max(1, n - 1))
+
+
 def _run(case, source, tmpdir):
     from pynetdicom2 import asceprovider
     from ..pdugen import uid_of_len
@@ -105,6 +114,8 @@ def _run(case, source, tmpdir):
             ds = raw
         elif source == 'bytesio':
             ds = io.BytesIO(raw)
+        elif source == 'shortread':
+            ds = ShortReader(raw)
         elif source == 'file':
             ds = tempfile.TemporaryFile(dir=tmpdir)
             ds.write(raw)
@@ -152,7 +163,7 @@ def run_case(case):
     tmpdir = os.environ.get('VP_TMP') or tempfile.gettempdir()
     seqs = {}
     key = None
-    sources = ('bytes', 'bytesio', 'file', 'bytesio-offset', 'file-offset') if case['dslen'] else ('bytes',)
+    sources = ('bytes', 'bytesio', 'file', 'bytesio-offset', 'file-offset', 'shortread') if case['dslen'] else ('bytes',)
     if 'resend' in case:
         sources = ('bytes', 'bytesio')
     dslen_eff = case['dslen'] if case.get('lazy') else case.get('resend', case['dslen'])
@@ -163,7 +174,9 @@ def run_case(case):
             viol.append((sig + ':raises:' + source, 'send raised %r for %s' % (exc, case)))
             continue
         enc = [p.encode() for p in pdus]
-        seqs[source] = enc
+        if source != 'shortread':
+            # (where the source delivers less than asked for, fragments may be shorter: the rules below hold, the cut points differ)
+            seqs[source] = enc
         cmd, data, flags = msggen.collect(pdus)
         hdrs = [f[1] for f in flags]
         where = 'maxlen=%d dslen=%d source=%s pc=%d%s' % (ml, dslen_eff, source, pc, (' (first send, consumed after the object was sent again with %d data bytes)' % case['resend'] if case.get('lazy') else
